@@ -92,14 +92,16 @@ def build(variant):
 
 # ------------------------------------------------------------------ histories
 
-C_INPUTS = ["fib", "prepro", "structs", "loops", "funcptr", "incomplete", "empty"]
+C_INPUTS = ["fib", "prepro", "macros", "structs", "loops", "funcptr", "incomplete", "empty"]
 LINKS = ["interp", "gen", "lazy", "lazybb"]
 
 
-def hist(src, link="interp", opt=2, run=1, out=0, rep=1):
+def hist(src, link="interp", opt=2, run=1, out=0, rep=1, tier=0):
     if "sieve" in src and link == "interp":
         run = 0          # the sieve programs take 40 s (plain) / 250 s (asan) in the interpreter
-    return "src=%s,link=%s,opt=%d,run=%d,out=%d,rep=%d" % (src, link, opt, run, out, rep)
+    if "sieve" in src:
+        tier = 0
+    return "src=%s,link=%s,opt=%d,run=%d,out=%d,rep=%d" % (src, link, opt, run, out, rep) + (",tier=1" if tier else "")
 
 
 def histories(tier, seed, variant="plain"):
@@ -127,12 +129,19 @@ def histories(tier, seed, variant="plain"):
         H.append(hist("movectx", LINKS[seed % 4], seed % 4))
         H.append(hist("scanstr:manyargs", "interp"))
         H.append(hist("scanstr:manyargs", LINKS[1 + seed % 3], seed % 4))
+        # tiered execution: MIR_interp of a function, then calls through its address under both lazy interfaces
+        tm = [m for m in mirs if re.search(r"test(9|12|14|16)\.mir$", m)] or mirs[-1:]
+        H.append(hist("api:loop", "lazy", seed % 3, tier=1))
+        H.append(hist("api:loop", "lazybb", (seed + 1) % 3, tier=1))
+        H.append(hist("scan:" + tm[seed % len(tm)], "lazy", (seed + 2) % 3, tier=1))
+        H.append(hist("scan:" + tm[(seed + 1) % len(tm)], "lazybb", seed % 3, tier=1))
+        H.append(hist("c2m:fib", "lazy" if seed % 2 else "lazybb", (seed + 1) % 3, tier=1))
         if variant == "plain":
             # > 1 page of generated code with hundreds of patched call sites (page-straddling patches)
             H.append(hist("bigcode", "lazy" if seed % 2 else "gen", seed % 2))
         for i, m in enumerate(mirs):
             k = i + seed
-            H.append(hist("scan:" + m, LINKS[1 + k % 3], k % 4, out=(k // 4) % 2))
+            H.append(hist("scan:" + m, LINKS[1 + k % 3], k % 4, out=(k // 4) % 2, tier=(k // 3) % 2))
             H.append(hist(("bin:" if (k % 3 == 0) else "scan:") + m, "interp", out=k % 2))
         for i, c in enumerate(C_INPUTS):
             k = i + seed
@@ -149,7 +158,7 @@ def histories(tier, seed, variant="plain"):
             for l in LINKS[1:]:
                 for o in range(4):
                     n += 1
-                    H.append(hist(s, l, o, out=(n + seed) % 2))
+                    H.append(hist(s, l, o, out=(n + seed) % 2, tier=(n // 2 + seed) % 2))
             H.append(hist(s, LINKS[1 + (n + seed) % 3], 2, rep=3))
         # the repository's small C tests: compile, load, link, generate (not executed)
         # (inputs with an .expectrc file are expected to be rejected by the compiler: not error-free)
@@ -692,6 +701,9 @@ class Validator:
                 self.report(x, "finish:rejected", "Finish rejected; " + where, e)
                 return False
             return not code
+        if k == "Api":
+            raise MachineryError("API marker %r is not in the alphabet of TraceMIRAlloc (ApiCalls) or arrives outside an "
+                                 "execution; %s" % (e.get("f"), where))
         site = "%s:%s" % sy.site(e)
         chain = sy.chain(e)
         if k == "Realloc":
